@@ -480,8 +480,15 @@ class Entity(object):
                     self.filename = self.filename[1:-1]
             if 'filename*' in disp.params:
                 # @see https://tools.ietf.org/html/rfc5987
-                encoding, lang, filename = disp.params['filename*'].split("'")
-                self.filename = unquote(str(filename), encoding)
+                try:
+                    encoding, lang, filename = (
+                        disp.params['filename*'].split("'"))
+                    self.filename = unquote(str(filename), encoding)
+                except (ValueError, LookupError):
+                    # not charset'lang'value, or an unknown charset
+                    raise cherrypy.HTTPError(
+                        400, 'Malformed filename* parameter in the '
+                        'Content-Disposition header.')
 
     def read(self, size=None, fp_out=None):
         """Read bytes from the connection."""
